@@ -140,7 +140,13 @@ impl World {
             Op::Recovery(i, now, vel_hi) => {
                 let c = &mut self.conns[i];
                 let (x, _, p, init) = c.rtt.kalman_rtt.verif_state();
-                c.rtt.kalman_rtt.verif_set_state(x, if vel_hi { 3.5 } else { 0.25 }, p, init);
+                // the velocity behind the gate `velocity > 2.0` is drawn (deterministically, from the clock value)
+                // from the whole range a Kalman trend can take, not one representative per side: just above the
+                // gate, steep ramps, huge, infinite / at the gate, zero, falling, NaN
+                const HI: [f64; 11] = [2.0000000000000004, 3.5, 5.0, 7.9, 8.0, 8.5, 9.0, 30.0, 1000.0, 1e300, f64::INFINITY];
+                const LO: [f64; 9] = [0.25, 2.0, 1.9999, 0.0, -0.0, -3.5, -1e9, f64::NAN, f64::NEG_INFINITY];
+                let v = if vel_hi { HI[(now % 11) as usize] } else { LO[(now % 9) as usize] };
+                c.rtt.kalman_rtt.verif_set_state(x, v, p, init);
                 c.perform_window_recovery(now);
             }
             Op::CcAck(i, classic, inf) => {
